@@ -266,9 +266,12 @@ impl<T: RealNumber, M: Matrix<T>> ElasticNet<T, M> {
         let gamma = T::one() / (T::one() + l2_reg).sqrt();
         let padding = gamma * l2_reg.sqrt();
 
+        // the optimizer centres the vector it is given; centre the n targets here so that the p padding
+        // entries stay zero and the targets are shifted by their own mean, not by sum(y) / (n + p)
+        let y_mean = y.mean();
         let mut y2 = M::RowVector::zeros(n + p);
         for i in 0..y.len() {
-            y2.set(i, y.get(i));
+            y2.set(i, y.get(i) - y_mean);
         }
 
         let mut x2 = M::zeros(n + p, p);
